@@ -404,12 +404,6 @@ def classify_cases(ctx, run, corpus):
                 known.append(("C04-2", "route R (add_root_schema) rejects the document of the self-referential root type "
                               "`%s` (root and definition copy map to the same type name); routes D/D2 accept it" % r, ui, r))
                 continue
-            if s == "compile-error" and r not in doc.get("definitions", {}) and \
-                    any(e[0] == "E0428" and ("`%s`" % r) in e[1] for e in w.compile_errors.get(c, [])) and \
-                    option_shaped(doc):
-                known.append(("C04-5", "route R (add_root_schema) names the inner type of the Option-shaped root `%s` by "
-                              "the root's title as well (E0428); routes D/D2 compile" % r, ui, r))
-                continue
         det = {}
         for rt, (s, c) in st.items():
             det[rt] = {"status": s, "steps": w.gen[c].get("steps"), "errors": w.compile_errors.get(c, [])[:3]}
@@ -669,10 +663,13 @@ def run(ctx):
                 if cc is None:
                     continue
                 oks = [n for n, sm in enumerate(run_.samples) if sm["ui"] == ci and run_.results[n].get(route, {}).get("v") == "ok"]
-                if w.status[cc] != "ok" or not oks:
+                names = sorted(e.get("name") for e in (w.gen[cc].get("dump") or {}).get("entries", {}).values() if e.get("name"))
+                missing = [t for t in c.get("must_have_types", {}).get(route, []) if t not in names]
+                if w.status[cc] != "ok" or not oks or missing:
                     reg_bad.append({"corpus": c["file"], "root": r, "route": route, "status": w.status[cc],
-                                    "steps": w.gen[cc].get("steps"), "errors": w.compile_errors.get(cc, [])[:3]})
-    ctx.oblige("regression cases of fixed findings (C04-3 / 6953602, one-tuple / d9b019c) convert and exchange values",
+                                    "steps": w.gen[cc].get("steps"), "errors": w.compile_errors.get(cc, [])[:3],
+                                    "named_types": names, "missing_types": missing})
+    ctx.oblige("regression cases of fixed findings (C04-3 / 6953602, C04-5 / 2b82c72, one-tuple / d9b019c) convert and exchange values",
                not reg_bad, json.dumps(reg_bad[:3])[:1500])
 
     # ---- route agreement on values (only where both routes have a module)
